@@ -23,11 +23,22 @@ pub struct Spec {
     pub no_output: bool,
     /// for limited mode: the run must report finished if the reference halts
     pub must_finish: bool,
+    /// run this configuration only on reference paths of this kind
+    pub only_on: Option<OnlyOn>,
+}
+
+#[derive(Clone, Copy, Debug, PartialEq)]
+pub enum OnlyOn {
+    Halted,
+    Divergent,
 }
 
 impl Spec {
     pub fn full(backend: Backend, level: u32) -> Spec {
-        Spec { backend, level, mode: Mode::Full, no_input: false, no_output: false, must_finish: false }
+        Spec { backend, level, mode: Mode::Full, no_input: false, no_output: false, must_finish: false, only_on: None }
+    }
+    pub fn limited(backend: Backend, level: u32, budget: usize) -> Spec {
+        Spec { mode: Mode::Limited(budget), ..Spec::full(backend, level) }
     }
     pub fn label(&self) -> String {
         format!("{}/L{}/{:?}{}{}", self.backend.name(), self.level, self.mode, if self.no_input { "/noin" } else { "" }, if self.no_output { "/noout" } else { "" })
@@ -39,6 +50,8 @@ pub struct Job {
     pub tag: String,
     pub code: String,
     pub width: u32,
+    /// refused output is signalled with Ok(0) instead of Err
+    pub ok0: bool,
 }
 
 #[derive(Clone, Debug)]
@@ -54,6 +67,8 @@ pub struct JobCfg {
     pub want: Want,
     pub profile: String,
     pub job_time_cap_s: u64,
+    /// C13: execute every subject twice on fresh contexts; the two event logs must be identical terms
+    pub twice: bool,
 }
 
 #[derive(Clone, Copy, Debug, PartialEq)]
@@ -136,7 +151,10 @@ pub fn run_job(job: &Job, specs: &[Spec], cfg: &JobCfg) -> JobOut {
 
 fn run_job_w<const B: u32>(job: &Job, specs: &[Spec], cfg: &JobCfg) -> JobOut {
     let t0 = Instant::now();
-    engine::init(cfg.solver, cfg.timeout_ms, cfg.limits.clone(), HashMode::Concrete, cfg.io.clone());
+    let mut io = cfg.io.clone();
+    io.out_fault_ok0 = job.ok0;
+    let cfg = &JobCfg { io: io.clone(), ..cfg.clone() };
+    engine::init(cfg.solver, cfg.timeout_ms, cfg.limits.clone(), HashMode::Concrete, io);
     engine::with(|c| {
         c.width = B as u8;
         c.job_deadline = Some(Instant::now() + std::time::Duration::from_secs(cfg.job_time_cap_s));
@@ -188,8 +206,21 @@ fn run_job_w<const B: u32>(job: &Job, specs: &[Spec], cfg: &JobCfg) -> JobOut {
                 Some(e) => e,
                 None => continue,
             };
+            match (spec.only_on, &r.run.status) {
+                (Some(OnlyOn::Halted), RefStatus::Halted | RefStatus::Faulted) => {}
+                (Some(OnlyOn::Divergent), RefStatus::Divergent { .. }) => {}
+                (None, _) => {}
+                _ => continue,
+            }
+            // unsafe mode with region 0 = "derive the region from the canonical excursion on this path"
+            let mut spec_eff = spec.clone();
+            if let Mode::Unsafe(0) = spec.mode {
+                let exc = r.run.min_ptr.unsigned_abs().max(r.run.max_ptr.unsigned_abs()) as isize;
+                spec_eff.mode = Mode::Unsafe(unsafe_region(exc, job.code.len()));
+            }
+            let spec = &spec_eff;
             // with mixed no_input/no_output specs the reference is run per spec
-            let r_events: Vec<engine::Event>;
+            let mut r_events: Vec<engine::Event>;
             let r_status: RefStatus;
             if spec.no_input != no_input_ref || spec.no_output != no_output_ref {
                 let rr = run_ref(B as u8, &job.code, cfg.ref_steps, cfg.detect_divergence, spec.no_input, spec.no_output);
@@ -224,13 +255,43 @@ fn run_job_w<const B: u32>(job: &Job, specs: &[Spec], cfg: &JobCfg) -> JobOut {
                     if s.contains("cell-operation cap") && matches!(r_status, RefStatus::Halted | RefStatus::Faulted) && !matches!(spec.mode, Mode::Limited(_)) {
                         po.candidates.push(mk_case(cfg, job, spec, &env_now(0), "subject exceeded the operation cap on a path where the canonical run halts (candidate non-termination)".into()));
                     }
+                    if let Mode::Limited(b) = spec.mode {
+                        if s.contains("cell-operation cap") && b <= 4096 {
+                            po.candidates.push(mk_case(cfg, job, spec, &env_now(0), "limited execution exceeded the operation cap (candidate: running time not bounded by the budget)".into()));
+                        }
+                    }
                 }
                 SubEnd::Out(o) => {
                     if !o.seam_errors.is_empty() {
                         po.inconclusive.push(format!("{}: I/O seam: {}", spec.label(), o.seam_errors.join("; ")));
                         continue;
                     }
+                    if cfg.twice {
+                        engine::with(|c| c.ops = 0);
+                        let res2 = catch_unwind(AssertUnwindSafe(|| run_sub::<B>(&**exec, spec.mode, spec.no_input, spec.no_output)));
+                        match res2 {
+                            Ok(o2) => {
+                                if o2.events != o.events || o2.ret != o.ret {
+                                    po.candidates.push(mk_case(cfg, job, spec, &env_now(0), format!("re-execution differs: first {:?} {:?}, second {:?} {:?}", o.ret, product::show_events(&o.events), o2.ret, product::show_events(&o2.events))));
+                                }
+                            }
+                            Err(payload) => match payload.downcast::<Abort>() {
+                                Ok(a) => po.inconclusive.push(format!("{}: second execution: {:?}", spec.label(), a)),
+                                Err(_) => po.candidates.push(mk_case(cfg, job, spec, &env_now(0), "panic during re-execution".into())),
+                            },
+                        }
+                    }
                     let sub_reads = o.events.iter().filter(|e| matches!(e, engine::Event::In | engine::Event::InFail)).count() as u32;
+                    if let RefStatus::Divergent { period_writes, .. } = r_status {
+                        // extend the recorded reference log periodically (no input is consumed in the period)
+                        let p = period_writes as usize;
+                        if p > 0 && r_events.len() >= p {
+                            let period: Vec<engine::Event> = r_events[r_events.len() - p..].to_vec();
+                            while r_events.len() < o.events.len() + 1 {
+                                r_events.extend(period.iter().cloned());
+                            }
+                        }
+                    }
                     let cmp = compare(&r_events, &o.events);
                     po.compared += 1;
                     if po.sample.is_none() && !r_events.is_empty() {
@@ -273,10 +334,9 @@ fn run_job_w<const B: u32>(job: &Job, specs: &[Spec], cfg: &JobCfg) -> JobOut {
                         (_, RefStatus::Divergent { .. }, Mode::Limited(_)) => match o.ret {
                             Ret::Finished(true) => report(&wit, "reported finished on a path where the canonical run provably diverges".into()),
                             Ret::Finished(false) => {
-                                // events must be a prefix of the periodic reference stream; the reference log
-                                // holds the first period(s): only check when the subject log is not longer
+                                // events must be a prefix of the periodic reference stream (extended above)
                                 if matches!(cmp, Cmp::RefIsPrefix) {
-                                    // subject got further than the recorded reference prefix: cannot judge here
+                                    report(&wit, "interrupted run on a divergent path produced events beyond the canonical periodic stream".into());
                                 }
                             }
                             ref other => report(&wit, format!("call returned {:?}", other)),
@@ -359,4 +419,12 @@ pub fn run_jobs(jobs: &[Job], specs_for: &(dyn Fn(&Job) -> Vec<Spec> + Sync), cf
         }
     });
     (results.into_inner().unwrap(), skipped.load(Ordering::SeqCst))
+}
+
+/// Region (cells on each side) for unsafe execution: canonical excursion plus the program
+/// length as margin, rounded up so that the allocation is a whole number of pages for every width.
+pub fn unsafe_region(excursion: isize, program_len: usize) -> isize {
+    let need = excursion + program_len as isize + 1;
+    // 2*m cells of 1..8 bytes: m a multiple of 2048 makes 2*m*w a multiple of 4096
+    ((need + 2047) / 2048) * 2048
 }
